@@ -300,7 +300,9 @@ func runC18(w *world.World, c caseC18, rec *kit.Recorder) error {
 				continue
 			}
 			tr := passthroughProbe(w, 1, n)
-			p, err := kit.BuildPacket(w.Cdc, tr, true)
+			// built WITHOUT the module's validating constructors: the probe is what a sender
+			// writes into a memo, and only the receive path may judge it
+			p, err := kit.BuildPacket(w.Cdc, tr, false)
 			if err != nil {
 				return fmt.Errorf("harness: %w", err)
 			}
